@@ -58,7 +58,13 @@ def is_pure_setter(m: Func) -> bool:
         if isinstance(st, (ast.Assign, ast.AnnAssign)):
             tg = st.targets if isinstance(st, ast.Assign) else [st.target]
             val = st.value
-            if all(_rooted_at_self(t, m.self_name) for t in tg) and isinstance(val, ast.Name) and val.id in params and val.id != m.self_name:
+            # self.x = <argument>   /   self.<table>["x"] = <argument>  (a setting kept in a table under a fixed key)
+            def own(t):
+                if isinstance(t, ast.Subscript) and isinstance(t.slice, ast.Constant):
+                    return _rooted_at_self(t.value, m.self_name)
+                return _rooted_at_self(t, m.self_name)
+
+            if all(own(t) for t in tg) and isinstance(val, ast.Name) and val.id in params and val.id != m.self_name:
                 continue
         return False
     return True
